@@ -22,6 +22,8 @@ use domain::base::message_builder::AdditionalBuilder;
 use domain::base::name::Name;
 use domain::base::{Message, StreamTarget, Ttl};
 use domain::net::client::request::{ComposeRequest, ComposeRequestMulti, Error, GetResponse, GetResponseMulti, RequestMessage, RequestMessageMulti, SendRequest, SendRequestMulti};
+use domain::net::client::dgram;
+use domain::net::client::protocol::{AsyncConnect, AsyncDgramRecv, AsyncDgramSend};
 use domain::net::client::tsig as ctsig;
 use domain::net::server::message::{Request, TransportSpecificContext, UdpTransportContext};
 use domain::net::server::middleware::tsig::TsigMiddlewareSvc;
@@ -250,7 +252,15 @@ struct Plan {
     responses: Vec<(Vec<u8>, bool)>,
     /// index of the response to alter, and how (0 MAC flip, 1 body flip)
     alter: Option<(usize, u8)>,
+    /// the upstream composes (= signs) the request once per entry, after
+    /// setting this message ID, like a datagram transport does for every
+    /// retransmission; empty = compose once, ID untouched
+    compose_ids: Vec<u16>,
+    /// which composition the peer answers (None = the last one put on the wire)
+    answer_composition: Option<usize>,
     log: Arc<Mutex<Vec<Vec<u8>>>>,
+    /// all compositions, in order
+    composed: Arc<Mutex<Vec<Vec<u8>>>>,
 }
 
 #[derive(Debug)]
@@ -303,17 +313,48 @@ impl GetResponseMulti for MockGet {
     }
 }
 
+/// Composes the request the way the plan says and returns the composition
+/// the peer answers.
+fn compose_all(plan: &Plan, mut compose: impl FnMut(Option<u16>) -> Vec<u8>) -> Vec<u8> {
+    let mut all = vec![];
+    if plan.compose_ids.is_empty() {
+        all.push(compose(None));
+    } else {
+        for id in &plan.compose_ids {
+            all.push(compose(Some(*id)));
+        }
+    }
+    *plan.composed.lock().unwrap() = all.clone();
+    let k = plan.answer_composition.unwrap_or(all.len() - 1).min(all.len() - 1);
+    all[k].clone()
+}
+
 struct MockUp(Plan);
 impl<CR: ComposeRequest + 'static> SendRequest<CR> for MockUp {
-    fn send_request(&self, request_msg: CR) -> Box<dyn GetResponse + Send + Sync> {
-        let req = request_msg.to_vec().unwrap_or_default();
+    fn send_request(&self, mut request_msg: CR) -> Box<dyn GetResponse + Send + Sync> {
+        let req = compose_all(&self.0, |id| {
+            if let Some(id) = id {
+                request_msg.header_mut().set_id(id);
+            }
+            // alternate between the two composition entry points
+            if id.map(|i| i & 1 == 1).unwrap_or(false) {
+                request_msg.to_message().map(|m| m.as_slice().to_vec()).unwrap_or_default()
+            } else {
+                request_msg.to_vec().unwrap_or_default()
+            }
+        });
         Box::new(MockGet { wire: build_wire(&self.0, &req), pos: 0 })
     }
 }
 struct MockUpMulti(Plan);
 impl<CR: ComposeRequestMulti + 'static> SendRequestMulti<CR> for MockUpMulti {
-    fn send_request(&self, request_msg: CR) -> Box<dyn GetResponseMulti + Send + Sync> {
-        let req = request_msg.to_message().map(|m| m.as_slice().to_vec()).unwrap_or_default();
+    fn send_request(&self, mut request_msg: CR) -> Box<dyn GetResponseMulti + Send + Sync> {
+        let req = compose_all(&self.0, |id| {
+            if let Some(id) = id {
+                request_msg.header_mut().set_id(id);
+            }
+            request_msg.to_message().map(|m| m.as_slice().to_vec()).unwrap_or_default()
+        });
         Box::new(MockGet { wire: build_wire(&self.0, &req), pos: 0 })
     }
 }
@@ -342,8 +383,16 @@ fn run_client_wrapper(u: &mut Unstructured, ctx: &mut Ctx) -> CaseResult {
         responses.push((tiny_message(id, 0x8400, byte(u), i % 3), signed));
     }
     let alter = if chance(u, 90) { Some((pick(u, n), pick(u, 2) as u8)) } else { None };
+    // retransmissions: the request is composed 1-4 times with changing IDs
+    let n_comp = [0usize, 0, 1, 2, 2, 3, 4][pick(u, 7)];
+    let compose_ids: Vec<u16> = (0..n_comp).map(|i| if chance(u, 40) { id } else { id.wrapping_add(1 + i as u16 * 7).wrapping_add(byte(u) as u16) }).collect();
+    let answer_composition = if n_comp >= 2 && chance(u, 50) { Some(pick(u, n_comp)) } else { None };
     let log = Arc::new(Mutex::new(vec![]));
-    let plan = Plan { server: ks.rk.clone(), mac_len: ks.eff_sign(), responses: responses.clone(), alter, log: log.clone() };
+    let composed = Arc::new(Mutex::new(vec![]));
+    let plan = Plan { server: ks.rk.clone(), mac_len: ks.eff_sign(), responses: responses.clone(), alter, compose_ids: compose_ids.clone(), answer_composition, log: log.clone(), composed: composed.clone() };
+    if n_comp >= 2 {
+        ctx.class("client-wrapper/request-composed-again");
+    }
     ctx.class(if multi { "client-wrapper/multi" } else { "client-wrapper/single" });
     ctx.sample(|| format!("client wrapper multi={multi} key[{}] pattern {:?} alter {:?}", kc.show(), responses.iter().map(|r| r.1).collect::<Vec<_>>(), alter));
     if responses.iter().any(|r| !r.1) || kc.truncating() {
@@ -394,9 +443,25 @@ fn run_client_wrapper(u: &mut Unstructured, ctx: &mut Ctx) -> CaseResult {
     vensure!(sp.rr.mac[..] == full[..kc.eff_sign()], "client-wrapper:request-mac-differs-from-rfc8945", "{}", hex(&sent[0]));
     vensure!(sp.rr.time.abs_diff(now48()) <= 120, "client-wrapper:time-signed-not-now", "{}", sp.rr.time);
 
+    // every composition is signed per RFC 8945 with its own ID
+    let comps = composed.lock().unwrap().clone();
+    for c in &comps {
+        let spc = rs::split(c).map_err(|e| Violation::new("client-wrapper:recomposed-request-not-signed", format!("{e} {}", hex(c))))?;
+        let full = rs::full_mac(&kc.rk, &Prior::None, &[], &spc.unsigned, &spc.rr, false);
+        vensure!(spc.rr.mac[..] == full[..kc.eff_sign()], "client-wrapper:recomposed-request-mac-differs-from-rfc8945", "{}", hex(c));
+    }
+    // The answer is bound to the request that was last put on the wire: an
+    // answer to an earlier, different composition is a stale answer.
+    let stale = comps.last().map(|l| l != &sent[0]).unwrap_or(false);
+    if stale {
+        ctx.class("client-wrapper/answer-to-earlier-composition");
+    } else if comps.len() >= 2 && comps.windows(2).any(|w| w[0] != w[1]) {
+        ctx.class("client-wrapper/answer-to-last-of-several-compositions");
+    }
+
     // expected sequence of results
     let mut want: Vec<Result<Option<usize>, ()>> = vec![];
-    let mut dirty = false;
+    let mut dirty = stale;
     let mut failed = false;
     for (i, (_, signed)) in responses.iter().enumerate() {
         let altered = alter.map(|a| a.0 == i).unwrap_or(false);
@@ -440,7 +505,14 @@ fn run_client_wrapper(u: &mut Unstructured, ctx: &mut Ctx) -> CaseResult {
                 vensure!(e.contains("Authentication"), "client-wrapper:error-is-not-authentication", "{e}");
                 ctx.class("client-wrapper/rejected");
             }
-            _ => vfail!(format!("client-wrapper:result-{}-expected-{}", if g.is_ok() { "ok" } else { "error" }, if w.is_ok() { "ok" } else { "error" }), "position {i}\n{}", show()),
+            _ => vfail!(
+                format!("client-wrapper:result-{}-expected-{}{}", if g.is_ok() { "ok" } else { "error" }, if w.is_ok() { "ok" } else { "error" }, if comps.len() >= 2 { if stale { "-answer-to-earlier-composition" } else { "-answer-to-last-composition" } } else { "" }),
+                "position {i}; request composed {} times with IDs {:?}, composition answered: {:?}\n{}",
+                comps.len(),
+                compose_ids,
+                answer_composition,
+                show()
+            ),
         }
     }
     if !failed && want.iter().all(|w| w.is_ok()) {
@@ -449,11 +521,158 @@ fn run_client_wrapper(u: &mut Unstructured, ctx: &mut Ctx) -> CaseResult {
     Ok(())
 }
 
+//------------ the real datagram transport over a fake network ---------------------------------------------
+
+/// What the fake network does with the n-th socket (the datagram transport
+/// opens a new socket and composes the request anew for every attempt).
+#[derive(Clone, Copy, Debug, PartialEq, Eq, Hash)]
+enum Net {
+    /// the datagram is lost
+    Lose,
+    /// an answer with another ID arrives (the transport ignores it) and nothing else
+    WrongId,
+    /// the honest answer arrives
+    Answer,
+    /// the honest answer with one MAC bit flipped arrives
+    BadMac,
+}
+
+#[derive(Clone)]
+struct FakeNet {
+    server: RefKey,
+    mac_len: usize,
+    script: Arc<Vec<Net>>,
+    sockets: Arc<std::sync::atomic::AtomicUsize>,
+    /// (datagram sent, unsigned answer given to it) per socket that answered
+    log: Arc<Mutex<Vec<(Vec<u8>, Vec<u8>)>>>,
+    fill: u8,
+}
+
+struct FakeSock {
+    net: FakeNet,
+    what: Net,
+    reply: Mutex<Option<Vec<u8>>>,
+}
+
+impl AsyncConnect for FakeNet {
+    type Connection = FakeSock;
+    type Fut = Pin<Box<dyn Future<Output = Result<FakeSock, std::io::Error>> + Send + Sync>>;
+    fn connect(&self) -> Self::Fut {
+        let n = self.sockets.fetch_add(1, std::sync::atomic::Ordering::SeqCst);
+        let what = self.script.get(n).copied().unwrap_or(Net::Answer);
+        Box::pin(ready(Ok(FakeSock { net: self.clone(), what, reply: Mutex::new(None) })))
+    }
+}
+
+impl AsyncDgramSend for FakeSock {
+    fn poll_send(&self, _cx: &mut std::task::Context<'_>, buf: &[u8]) -> std::task::Poll<Result<usize, std::io::Error>> {
+        if self.what != Net::Lose {
+            if let (Ok(sp), Some(w)) = (rs::split(buf), wire::walk(buf)) {
+                // answer: header + question of the request, one TXT record
+                let qend = w.questions.last().map(|q| q.end).unwrap_or(12);
+                let mut a = sp.unsigned[..qend].to_vec();
+                a[2] = 0x81;
+                a[3] = 0x80;
+                a[6..12].copy_from_slice(&[0, 1, 0, 0, 0, 0]);
+                a.extend_from_slice(&[0, 0, 16, 0, 1, 0, 0, 0, 60, 0, 3, 2, self.net.fill, self.net.fill]);
+                if self.what == Net::WrongId {
+                    a[0] ^= 0x55;
+                }
+                let (mut signed, _) = rs::sign(&self.net.server, &self.net.server.name, &Prior::Mac(&sp.rr.mac), &[], &a, &SignParams { time: sp.rr.time, fudge: 300, error: 0, other: vec![], mac_len: self.net.mac_len }, false);
+                if self.what == Net::BadMac {
+                    let l = signed.len();
+                    signed[l - 7] ^= 1;
+                }
+                self.net.log.lock().unwrap().push((buf.to_vec(), a));
+                *self.reply.lock().unwrap() = Some(signed);
+            }
+        }
+        std::task::Poll::Ready(Ok(buf.len()))
+    }
+}
+
+impl AsyncDgramRecv for FakeSock {
+    fn poll_recv(&self, _cx: &mut std::task::Context<'_>, buf: &mut tokio::io::ReadBuf<'_>) -> std::task::Poll<Result<(), std::io::Error>> {
+        match self.reply.lock().unwrap().take() {
+            Some(r) => {
+                buf.put_slice(&r);
+                std::task::Poll::Ready(Ok(()))
+            }
+            // nothing more arrives; the transport's read timeout ends the attempt
+            None => std::task::Poll::Pending,
+        }
+    }
+}
+
+fn run_dgram(u: &mut Unstructured, ctx: &mut Ctx) -> CaseResult {
+    let n_before = pick(u, 4);
+    let mut script: Vec<Net> = (0..n_before).map(|_| if flag(u) { Net::Lose } else { Net::WrongId }).collect();
+    let last = if chance(u, 40) { Net::BadMac } else { Net::Answer };
+    script.push(last);
+    let fill = byte(u);
+    let kc = {
+        let mut k = gen_keyspec(u);
+        if k.eff_sign() < k.eff_min() {
+            k.min_mac = k.sign_len;
+        }
+        k
+    };
+    let ks = peer_of(u, &kc);
+    let ks = KeySpec { min_mac: kc.min_mac, sign_len: kc.sign_len, ..ks };
+    let mut req = tiny_message(u16_(u), 0x0100, fill, 0);
+    req[27] = 6;
+    ctx.class("dgram-transport");
+    ctx.class(format!("dgram-transport/{}-attempts-before-answer", n_before));
+    ctx.sample(|| format!("tsig over dgram transport, network script {script:?} key[{}]", kc.show()));
+    if n_before > 0 {
+        ctx.nontrivial(&(&kc, &script, &req));
+    }
+    let net = FakeNet { server: ks.rk.clone(), mac_len: ks.eff_sign(), script: Arc::new(script.clone()), sockets: Arc::new(std::sync::atomic::AtomicUsize::new(0)), log: Arc::new(Mutex::new(vec![])), fill };
+    let key = Arc::new(kc.lib());
+    let res: Result<Vec<u8>, String> = block_on_paused(async {
+        let mut config = dgram::Config::new();
+        config.set_read_timeout(std::time::Duration::from_millis(50));
+        config.set_max_retries(5);
+        let udp = dgram::Connection::with_config(net.clone(), config);
+        let conn = ctsig::Connection::new(key.clone(), udp);
+        let rm = RequestMessage::new(Message::from_octets(req.clone()).unwrap()).unwrap();
+        let mut g = SendRequest::send_request(&conn, rm);
+        g.get_response().await.map(|m| m.as_slice().to_vec()).map_err(|e| format!("{e:?}"))
+    });
+    let log = net.log.lock().unwrap().clone();
+    let attempts = net.sockets.load(std::sync::atomic::Ordering::SeqCst);
+    vensure!(attempts == script.len(), "dgram-transport:number-of-attempts", "{attempts} sockets for script {script:?}: {res:?}");
+    // every datagram that went out is signed per RFC 8945
+    for (d, _) in &log {
+        let sp = rs::split(d).map_err(|e| Violation::new("dgram-transport:request-not-signed", format!("{e} {}", hex(d))))?;
+        let full = rs::full_mac(&kc.rk, &Prior::None, &[], &sp.unsigned, &sp.rr, false);
+        vensure!(sp.rr.mac[..] == full[..kc.eff_sign()], "dgram-transport:request-mac-differs-from-rfc8945", "{}", hex(d));
+    }
+    let detail = || format!("network script {script:?}, {attempts} attempts, key {}\nresult {res:?}", kc.show());
+    match (last, &res) {
+        (Net::Answer, Ok(m)) => {
+            let pre = &log.last().ok_or_else(|| Violation::new("dgram-transport:no-datagram-seen", detail()))?.1;
+            check_restored("dgram-transport", m, pre)?;
+            ctx.class("dgram-transport/verified");
+            if n_before > 0 {
+                ctx.class("dgram-transport/verified-after-retransmission");
+            }
+        }
+        (Net::BadMac, Err(e)) => {
+            vensure!(e.contains("Authentication"), "dgram-transport:error-is-not-authentication", "{}", detail());
+            ctx.class("dgram-transport/rejected");
+        }
+        (Net::Answer, Err(_)) => vfail!(if n_before > 0 { "dgram-transport:honest-answer-after-retransmission-rejected" } else { "dgram-transport:honest-answer-rejected" }, "{}", detail()),
+        _ => vfail!("dgram-transport:altered-answer-accepted", "{}", detail()),
+    }
+    Ok(())
+}
+
 pub fn run_wrappers(data: &[u8], ctx: &mut Ctx) -> CaseResult {
     let mut u = Unstructured::new(data);
-    if flag(&mut u) {
-        run_middleware(&mut u, ctx)
-    } else {
-        run_client_wrapper(&mut u, ctx)
+    match pick(&mut u, 5) {
+        0 | 1 => run_client_wrapper(&mut u, ctx),
+        2 | 3 => run_middleware(&mut u, ctx),
+        _ => run_dgram(&mut u, ctx),
     }
 }
